@@ -34,6 +34,7 @@ import (
 	"crypto/elliptic"
 	"encoding/json"
 	"fmt"
+	"github.com/nspcc-dev/neo-go/pkg/core/native/noderoles"
 	"math/big"
 	"sort"
 	"strings"
@@ -2034,7 +2035,7 @@ func mcFsGenOp(t *rapid.T) mcFsOp {
 	op := mcFsOp{}
 	op.Kind = Weighted(t, "kind", []int{40, 22, 10, 10, 10, 8})
 	op.C = Pick(t, "c", 3)
-	op.Sig = Weighted(t, "sig", []int{58, 8, 6, 6, 6, 6, 5, 5})
+	op.Sig = Weighted(t, "sig", []int{54, 8, 6, 6, 6, 6, 5, 5, 4})
 	op.Amt = Pick(t, "amt", 14)
 	op.Tgt = Pick(t, "tgt", 4)
 	op.Tok = Pick(t, "tok", 2)
@@ -2239,6 +2240,19 @@ func (e *mcFsEngine) build(op mcFsOp) *mcFsTx {
 			ft.signers = right(transaction.CalledByEntry)
 		case 6:
 			ft.fault = "wit.missing"
+		case 8:
+			// the Inner Ring node at this contract's position in the designated
+			// list: it is paid by emit, it does not authorise it (the Alphabet
+			// node at that position in the committee does)
+			ft.signers, ft.fault = []Signer{Single("stranger", stranger)}, "wit.missing"
+			if ir, _, err := w.BC.GetDesignatedByRole(noderoles.NeoFSAlphabet); err == nil && c.index < len(ir) {
+				for i, k := range e.irPool {
+					if k.PublicKey().Equal(ir[c.index]) {
+						ft.signers, ft.fault = []Signer{Single(fmt.Sprintf("ir%d", i), k)}, "wit.other_key"
+						e.r.Count("probe.emit_by_inner_ring_node_at_the_contract_index")
+					}
+				}
+			}
 		default:
 			ft.signers = append(right(transaction.Global), Single("stranger", stranger))
 		}
